@@ -106,18 +106,19 @@ func (s *S) RunWith(src string, maxDuration time.Duration) Res {
 // Run feeds one input through repl.EvalOne.
 func (s *S) Run(src string) Res {
 	before := s.Out.Len()
-	echo := &bytes.Buffer{}
+	echoBuf := &bytes.Buffer{}
+	echo := &limitWriter{buf: echoBuf}
 	cont, panicked, errs, formatted := repl.EvalOne(context.Background(), s.St, src, echo, s.Opts)
 	all := s.Out.Bytes()
 	var delta string
 	if len(all) >= before {
 		delta = string(all[before:])
 	}
-	if lw, ok := s.St.Out.(*limitWriter); ok && lw.truncated {
+	if lw, ok := s.St.Out.(*limitWriter); (ok && lw.truncated) || echo.truncated {
 		// what was printed is incomplete: comparisons treat the input like one stopped by the allocation guard
 		errs = append(errs, "verif: output truncated, would exceed memory of the harness")
 	}
-	return Res{Out: delta, Echo: echo.String(), Errs: errs, Panicked: panicked, Cont: cont, Fmt: formatted}
+	return Res{Out: delta, Echo: echoBuf.String(), Errs: errs, Panicked: panicked, Cont: cont, Fmt: formatted}
 }
 
 // Obj parses and evaluates src directly on the session state and returns the resulting object.
